@@ -33,6 +33,9 @@ def burns(A):
 
 
 def run(W, chk):
+    from rules.common import borrow
+    borrow(W, chk, "C01", {"PROV-withdraw-same-vector"}, "a withdrawal debits each reserve by exactly what it pays for that asset")
+    borrow(W, chk, "C17", {"CUT-status"}, "redemption is gated by the withdrawals switch and by no other")
     paths, _ = W.variant_paths(PM, "execute")
     for which, vp in [("execute", p) for p in paths] + [("reply", None), ("instantiate", None), ("migrate", None)]:
         A = W.run(PM, which, vp)
